@@ -26,7 +26,7 @@ def miri(name="miri", scale=0.01, shards=4, shards_thorough=16, **kw):
 PROPS = {
     "C01": {
         "level": "exploration",
-        "stages": both("inproc") + [miri("miri-inproc", scale=0.004), native("c01net", sub="c03")],
+        "stages": both("inproc") + [miri("miri-inproc", scale=0.002), native("c01net", sub="c03")],
     },
     "C02": {
         "level": "exploration",
@@ -82,7 +82,7 @@ PROPS = {
     },
     "C14": {
         "level": "exploration",
-        "stages": both("model") + [miri("miri-model", scale=0.0015)],
+        "stages": both("model") + [miri("miri-model", scale=0.0007)],
     },
     "C15": {
         "level": "fault_enumeration",
